@@ -44,9 +44,9 @@ def _minus(alphabet: str, forbidden: str) -> str:
 
 
 @st.composite
-def curie_pool(draw, min_size: int, max_size: int, *, forbidden: str = "", allow_empty: bool = True, unicode_arm: bool = True):
+def curie_pool(draw, min_size: int, max_size: int, *, forbidden: str = "", allow_empty: bool = True, unicode_arm: bool = True, extra_alpha: str = ""):
     """Distinct CURIE prefixes, rich in case variants and substrings of one another."""
-    alpha = _minus(CURIE_ALPHA, forbidden)
+    alpha = _minus(CURIE_ALPHA + extra_alpha, forbidden)
     k = draw(st.integers(min_size, max_size))
     pool: list[str] = []
     attempts = 0
@@ -156,6 +156,7 @@ def record_sets(
     prefix_no_delimiter: bool = True,
     patterns: bool = False,
     unicode_arm: bool = True,
+    foreign_delimiters: bool = False,
 ):
     """A record list that a strict Converter accepts, by construction."""
     n = draw(st.integers(min_records, max_records))
@@ -165,7 +166,10 @@ def record_sets(
     allow_empty_uri = allow_empty_uri and draw(st.integers(0, 2)) == 0
     extra_c = draw(st.integers(0, max_syn))
     extra_u = draw(st.integers(0, max_syn))
-    cp = draw(curie_pool(n, n + extra_c, forbidden=forbidden, allow_empty=allow_empty_prefix, unicode_arm=unicode_arm))
+    # characters that are delimiters of OTHER converters (':' in a prefix of a converter whose delimiter is '|', ...) are
+    # ordinary prefix characters here
+    extra_alpha = "".join(ch for ch in ":/|_-=" if ch not in delimiter) if foreign_delimiters and draw(st.integers(0, 2)) == 0 else ""
+    cp = draw(curie_pool(n, n + extra_c, forbidden=forbidden, allow_empty=allow_empty_prefix, unicode_arm=unicode_arm, extra_alpha=extra_alpha))
     if not prefix_no_delimiter and cp:
         # deliberately put the delimiter INSIDE some prefixes (e.g. APOLLO_SV with delimiter _)
         for k in range(len(cp)):
@@ -303,7 +307,7 @@ def scalar_cases(draw, tier="quick", *, prefix_free=None, ambiguous=False, max_r
     d = draw(delimiters())
     pf = draw(st.booleans()) if prefix_free is None else prefix_free
     mr = max_records or (8 if big else 5)
-    recs = draw(record_sets(delimiter=d, max_records=mr, max_syn=5 if big else 4, prefix_free=pf, allow_empty_uri=not pf, prefix_no_delimiter=prefix_no_delimiter))
+    recs = draw(record_sets(delimiter=d, max_records=mr, max_syn=5 if big else 4, prefix_free=pf, allow_empty_uri=not pf, prefix_no_delimiter=prefix_no_delimiter, foreign_delimiters=True))
     if ambiguous and recs:
         # make strings that are CURIEs and URIs at once likely: a URI prefix equal to prefix+delimiter(+text),
         # and a CURIE prefix equal to the scheme of a URI prefix
